@@ -221,6 +221,7 @@ def run(idx: ProgramIndex, rep: Report, tier: str):
     temp_mutation(idx, rep, tier)
     memo_primitives(idx, rep)
     detach_neutral(idx, rep)
+    per_call_state(idx, rep)
     state_not_overwritten(idx, rep)
     rep.assume("regulariser/precision settings (variational_cholesky_jitter, cholesky_jitter, _linalg_dtype_cholesky) are not changed between two evaluation-mode calls on the same model: gpytorch caches Cholesky factors computed with them by design")
     rep.assume("settings read only inside linear_operator (CG vs Cholesky, Lanczos rank) select between algorithms for the same quantity (the 'iterative paths at tight tolerance' caveat of C01)")
@@ -1178,3 +1179,46 @@ def detach_neutral(idx: ProgramIndex, rep: Report, rule: str = "C03-9", only_fun
                     "the arms of the branch on detach_test_caches differ by more than .detach(): `%s` vs `%s` - the setting is treated as value neutral (no cache is keyed by it), so the cached numbers must not depend on it" % (
                         "; ".join(" ".join(src(s_).split()) for s_ in node.body)[:70], "; ".join(" ".join(src(s_).split()) for s_ in node.orelse)[:70] or "<nothing>"), {})
     rep.floor(rule, "branches on detach_test_caches", n, floor)
+
+
+# ---- C03-5 (extension): memo entries computed from per-call state recorded on the object ---------------------------------
+def per_call_state(idx: ProgramIndex, rep: Report):
+    """`self.A = <argument of the call>` in an un-memoised method records per-call state (e.g. `_last_test_train_covar`).  A memo
+    entry that is not keyed by that argument may read `self.A` only to pass it on to a method that ignores it; if the resolved
+    callee of some concrete class *uses* it, the cached value bakes in properties (values, batch shape) of the call that happened
+    to fill the cache."""
+    D = idx.find_class("DefaultPredictionStrategy")
+    percall: Dict[str, str] = {}
+    for cls in idx.subclasses(D):
+        for m in cls.methods.values():
+            if m.cached_decorator() is not None or m.name == "__init__":
+                continue
+            for n in ast.walk(m.node):
+                if isinstance(n, ast.Assign) and len(n.targets) == 1 and isinstance(n.targets[0], ast.Attribute) and chain(n.targets[0].value) == m.params[0] \
+                        and isinstance(n.value, ast.Name) and n.value.id in m.params[1:]:
+                    percall[n.targets[0].attr] = "%s.%s" % (cls.qualname, m.name)
+    n_sites = 0
+    for cls in idx.subclasses(D):
+        for name, m in cls.all_methods().items():
+            if m.cached_decorator() is None:
+                continue
+            sn = m.params[0]
+            for c in calls_in(m.node):
+                for i, a in enumerate(c.args):
+                    if not (isinstance(a, ast.Attribute) and chain(a.value) == sn and a.attr in percall):
+                        continue
+                    n_sites += 1
+                    inst = "%s:%s.%s[%s -> %s]" % (cls.module.name, cls.qualname, name, a.attr, src(c.func))
+                    if any(o.instance == inst for o in rep.obligations if o.rule == "C03-5"):
+                        continue
+                    callee = cls.lookup(c.func.attr) if isinstance(c.func, ast.Attribute) and chain(c.func.value) == sn else None
+                    if callee is None:
+                        rep.add("C03-5", inst, "%s:%d" % (m.module.relpath, c.lineno), False, "per-call state self.%s (recorded by %s) flows into `%s`, which is not a method of the strategy" % (a.attr, percall[a.attr], src(c.func)), {})
+                        continue
+                    pname = callee.params[1 + i] if 1 + i < len(callee.params) else None
+                    used = pname is not None and any(isinstance(x, ast.Name) and x.id == pname and isinstance(x.ctx, ast.Load) for x in ast.walk(callee.node))
+                    rep.add("C03-5", inst, "%s:%d" % (m.module.relpath, c.lineno), not used,
+                            "per-call state self.%s is passed to %s, which ignores it" % (a.attr, callee.qualname) if not used else
+                            "memo entry `%s` of %s is computed from per-call state self.%s (recorded by %s) through %s, which uses it: the cached value keeps properties of the call that filled the cache (e.g. its batch shape)" % (
+                                name, cls.qualname, a.attr, percall[a.attr], callee.qualname), {"callee": callee.qualname})
+    rep.floor("C03-5", "per-call state reads in memoised methods", n_sites, 2)
